@@ -353,7 +353,11 @@ func TestVerifCircuit(t *testing.T) {
 		vC07Exhaustive(t, out, int(exhaustive))
 		return
 	}
+	only := vEnvInt("VERIF_C07_ONLY", -1)
 	for ci := 0; ci < ncases; ci++ {
+		if only >= 0 && int64(ci) != only {
+			continue
+		}
 		vC07Case(t, out, master.fork(uint64(ci)), ci)
 	}
 }
@@ -755,6 +759,9 @@ func vC07Case(t *testing.T, out *vWriter, r *vrng, ci int) {
 	rc := vC07GenRestart(g)
 	s.doRestart(ths, rc, true)
 	rec([]any{"restart", vC07RestartJ(rc)}, []any{"restarted"})
+	// ... and restarting once more (nothing closed, nothing to trim) changes nothing.
+	s.doRestart(ths, &vC07Restart{}, false)
+	rec([]any{"restart", vC07RestartJ(&vC07Restart{})}, []any{"restarted"})
 
 	out.emit(map[string]any{"case": ci, "mode": mode, "threads": nthreads,
 		"univ": s.univJ(), "steps": steps})
@@ -837,6 +844,8 @@ func vC07Exhaustive(t *testing.T, out *vWriter, depth int) {
 			rc := rcs[ci%2]
 			s.doRestart(ths, rc, false)
 			rec([]any{"restart", vC07RestartJ(rc)}, []any{"restarted"})
+			s.doRestart(ths, &vC07Restart{}, false)
+			rec([]any{"restart", vC07RestartJ(&vC07Restart{})}, []any{"restarted"})
 			out.emit(map[string]any{"case": ci, "mode": "exh", "threads": 1,
 				"univ": s.univJ(), "steps": steps})
 			s.raw.Close()
